@@ -255,12 +255,14 @@ func gwHalf[T any](response bool, limit func(hint reflect.Value) int, fields ...
 
 var limits = map[string]func(hint reflect.Value) int{}
 
-// LimitFor returns the read limit that applies to an encoding of v (0: none).
-func (e *Entry) LimitFor(v reflect.Value) int {
+// LimitFor returns the size limit the library's read function applies to an
+// encoding of v, and whether there is one. (For gateway responses it depends on
+// the request fields of v; it may be 0, in which case nothing can be read back.)
+func (e *Entry) LimitFor(v reflect.Value) (int, bool) {
 	if f, ok := limits[e.Name]; ok {
-		return f(v)
+		return f(v), true
 	}
-	return e.MaxLen
+	return e.MaxLen, e.MaxLen > 0
 }
 
 func constLimit(n int) func(reflect.Value) int { return func(reflect.Value) int { return n } }
